@@ -122,6 +122,7 @@ async fn main() -> Result<(), Terminator> {
 
         st_mut.listeners = listeners::from_config(&cfg.listeners)?;
         st_mut.connectors = connectors::from_config(&cfg.connectors)?;
+        reject_self_reference(&cfg.listeners, &cfg.connectors)?;
 
         #[cfg(feature = "metrics")]
         if let Some(mut metrics) = cfg.metrics {
@@ -175,6 +176,51 @@ async fn main() -> Result<(), Terminator> {
         let ctx = rx.recv().await.unwrap();
         tokio::spawn(process_request(ctx, state.clone()));
     }
+}
+
+/// A connector whose upstream is one of this proxy's own listeners sends every request it gets back into the
+/// proxy: one request becomes a chain of requests that ends when the process is out of descriptors, and the
+/// connections left in the listener's backlog start the next chain. Such a configuration is refused when loaded
+/// (as far as it can be seen from the addresses: literal addresses and `localhost`).
+fn reject_self_reference(
+    listeners: &serde_yaml::Sequence,
+    connectors: &serde_yaml::Sequence,
+) -> Result<(), Error> {
+    use std::net::{IpAddr, SocketAddr};
+    let text = |v: &serde_yaml::Value, k: &str| v.get(k).and_then(|x| x.as_str()).map(str::to_owned);
+    for c in connectors {
+        let (Some(server), Some(port)) = (text(c, "server"), c.get("port").and_then(|p| p.as_u64())) else {
+            continue;
+        };
+        let cname = text(c, "name").unwrap_or_default();
+        let ctype = text(c, "type").unwrap_or_else(|| cname.clone());
+        let ips: Vec<IpAddr> = if server.eq_ignore_ascii_case("localhost") {
+            vec![IpAddr::from([127, 0, 0, 1]), IpAddr::from([0, 0, 0, 0, 0, 0, 0, 1])]
+        } else {
+            server.trim_start_matches('[').trim_end_matches(']').parse().into_iter().collect()
+        };
+        for l in listeners {
+            let lname = text(l, "name").unwrap_or_default();
+            let ltype = text(l, "type").unwrap_or_else(|| lname.clone());
+            // QUIC runs over UDP, everything else a connector can reach over TCP
+            if (ctype == "quic") != (ltype == "quic") {
+                continue;
+            }
+            let Some(bind) = text(l, "bind").and_then(|b| b.parse::<SocketAddr>().ok()) else {
+                continue;
+            };
+            let same_host = ips.iter().any(|ip| {
+                *ip == bind.ip() || (bind.ip().is_unspecified() && ip.is_loopback())
+            });
+            if u64::from(bind.port()) == port && same_host {
+                easy_error::bail!(
+                    "connector {} points at listener {} of this proxy ({}:{}): its requests would come back for ever",
+                    cname, lname, server, port
+                );
+            }
+        }
+    }
+    Ok(())
 }
 
 const UPSTREAM_SETUP_TIMEOUT: std::time::Duration = std::time::Duration::from_secs(60);
